@@ -127,6 +127,10 @@ def md5_value(draw, salt_len=None):
     n = salt_len if salt_len is not None else draw(st.integers(1, 8))
     salt = "".join(draw(st.lists(st.sampled_from(CRYPT64), min_size=n, max_size=n)))
     digest = "".join(draw(st.lists(st.sampled_from(CRYPT64), min_size=22, max_size=22)))
+    if draw(st.integers(0, 7)) == 0:
+        # still of the $1$ class for netconan ($1$<non-blank>$<non-blank>): a further '$' inside the body
+        k = draw(st.integers(1, 20))
+        digest = digest[:k] + "$" + digest[k + 1 :]
     return "$1$" + salt + "$" + digest
 
 
